@@ -116,6 +116,13 @@ def _work_inner(run_one, scen, seed, tf):
     json.dump(out, open(tf, "w"))
 
 
+def pick(tid, k, salt=0):
+    """variant number in 0..k-1 for trace id tid.  NOT tid % k: TLC serialises a scenario set in its normal-form order,
+    so the parity (or residue) of the position is often one of the scenario's own fields (C20: odd = layer, even = FNO)
+    and a variant keyed on it would never meet half of the universe.  A multiplicative hash decorrelates the two."""
+    return (((tid + 1) * 2654435761 + salt * 0x9E3779B1) >> 13) % k
+
+
 def main(run_one):
     """driver entry: argv = scenarios.json traces.json seed [shards].  The library is imported once,
     then the scenarios are sharded over forked workers (sharing the imported pages)."""
